@@ -2022,3 +2022,178 @@ func ruleCheckedNameLookup(c *Ctx, rule, fn string) {
 		c.Undecided(rule, f.Name+"|lookups", "no lookup in a map keyed by name found")
 	}
 }
+
+// ruleStatementFieldsFromProductions: what Select returns is what its productions parsed.
+func ruleStatementFieldsFromProductions(c *Ctx, rule string) {
+	c.Rule(rule, "the SELECT statement handed to the executor is the one the productions parsed: in Parser.Select and Parser.TableExpression every store into a field of the statement under construction has the result of a production (a Parser method) as its value — a clause that is rewritten after parsing (de-duplicated, re-ordered, trimmed) by anything that does not see the whole statement changes what is grouped, filtered or returned without the text saying so")
+	for _, fn := range []string{"sql.(*Parser).Select", "sql.(*Parser).TableExpression"} {
+		f := c.NeedFunc(rule, fn)
+		if f == nil {
+			continue
+		}
+		sig := f.Obj.Type().(*types.Signature)
+		if sig.Results().Len() == 0 {
+			continue
+		}
+		stmtT := sig.Results().At(0).Type()
+		n, bad := 0, 0
+		inspectBody(f.Decl.Body, func(x ast.Node) bool {
+			as, ok := x.(*ast.AssignStmt)
+			if !ok {
+				return true
+			}
+			for i, l := range as.Lhs {
+				sel, ok := ast.Unparen(l).(*ast.SelectorExpr)
+				if !ok {
+					continue
+				}
+				base, ok := ast.Unparen(sel.X).(*ast.Ident)
+				if !ok || !types.Identical(f.TypeOf(base), stmtT) || fieldVar(f, sel) == nil {
+					continue
+				}
+				n++
+				var rhs ast.Expr
+				if len(as.Rhs) == 1 {
+					rhs = as.Rhs[0]
+				} else if i < len(as.Rhs) {
+					rhs = as.Rhs[i]
+				}
+				okSrc := false
+				if call, ok := ast.Unparen(rhs).(*ast.CallExpr); ok {
+					if callee := f.Callee(call); callee != nil {
+						if s, ok := callee.Type().(*types.Signature); ok && s.Recv() != nil && namedTypeIs(s.Recv().Type(), "sql", "Parser") {
+							okSrc = true
+						}
+					}
+				}
+				key := f.Name + "|field-from-production|" + sel.Sel.Name
+				if okSrc {
+					c.OK(rule, key, as.Pos(), 1, "assigned from a production")
+				} else {
+					bad++
+					c.Fail(rule, key+"#"+itoa(bad), as.Pos(), "%s stores %s into the statement's %s: the clause is not (only) what its production parsed", f.Name, f.Src(rhs), sel.Sel.Name)
+				}
+			}
+			return true
+		})
+		if n == 0 {
+			c.Undecided(rule, f.Name+"|field-from-production", "no store into a field of the statement found")
+		}
+	}
+}
+
+// ruleSessionStateMovesTogether: Session.CurDB and Session.RelationService say the same thing at every exit.
+func ruleSessionStateMovesTogether(c *Ctx, rule string) {
+	c.Rule(rule, "the two fields that say whether a database is selected change together: in every function of the engine, a store into Session.RelationService or Session.CurDB is accompanied by a store into the other one on every path to the function's exits (the same statement, or straight-line neighbours). ExecQuery decides by `CurDB == \"\"` whether there is a service to call: a path that clears or replaces one field and can leave (an error return in between) with the other one unchanged lets the next statement dereference a nil service")
+	w := c.W
+	eng := w.Pkgs["engine"]
+	n := 0
+	for _, name := range w.SortedFuncNames() {
+		f := w.Funcs[name]
+		if f.Pkg != eng || f.Decl.Body == nil {
+			continue
+		}
+		type store struct {
+			loc   Loc
+			field string
+			node  ast.Node
+		}
+		var stores []store
+		g := f.Graph()
+		fieldOf := func(e ast.Expr) string {
+			sel, ok := ast.Unparen(e).(*ast.SelectorExpr)
+			if !ok {
+				return ""
+			}
+			v := fieldVar(f, sel)
+			if v == nil || (v.Name() != "CurDB" && v.Name() != "RelationService") || !namedTypeIs(f.TypeOf(sel.X), "engine", "Session") {
+				return ""
+			}
+			return v.Name()
+		}
+		inspectBody(f.Decl.Body, func(x ast.Node) bool {
+			as, ok := x.(*ast.AssignStmt)
+			if !ok {
+				return true
+			}
+			for _, l := range as.Lhs {
+				if fn := fieldOf(l); fn != "" {
+					if loc, ok := g.Locate(as); ok {
+						stores = append(stores, store{loc, fn, as})
+					}
+				}
+			}
+			return true
+		})
+		if len(stores) == 0 {
+			continue
+		}
+		storesField := func(nd ast.Node, field string) bool {
+			as, ok := nd.(*ast.AssignStmt)
+			if !ok {
+				return false
+			}
+			for _, l := range as.Lhs {
+				if fieldOf(l) == field {
+					return true
+				}
+			}
+			return false
+		}
+		for i, s := range stores {
+			n++
+			other := "CurDB"
+			if s.field == "CurDB" {
+				other = "RelationService"
+			}
+			key := f.Name + "|" + s.field + "-with-" + other + "#" + itoa(i+1)
+			if storesField(s.node, other) {
+				c.OK(rule, key, s.node.Pos(), 1, "both fields are stored by one statement")
+				continue
+			}
+			// forward: every path to an exit stores the other field
+			from := s.loc
+			leak, _ := g.Forward(&from, nil, func(nd ast.Node, at Loc) Verdict {
+				if storesField(nd, other) {
+					return Cut
+				}
+				if _, isRet := nd.(*ast.ReturnStmt); isRet {
+					return Hit
+				}
+				return Go
+			}, func(*cfg.Block) Verdict { return Hit })
+			if !leak {
+				c.OK(rule, key, s.node.Pos(), 1, "every path from here to an exit stores %s as well", other)
+				continue
+			}
+			// backward: a store of the other field dominates this one and always runs into it
+			paired := false
+			for _, t := range stores {
+				if t.field != other || !g.Dominates(t.loc, s.loc) {
+					continue
+				}
+				tf := t.loc
+				miss, _ := g.Forward(&tf, nil, func(nd ast.Node, at Loc) Verdict {
+					if at == s.loc {
+						return Cut
+					}
+					if _, isRet := nd.(*ast.ReturnStmt); isRet {
+						return Hit
+					}
+					return Go
+				}, func(*cfg.Block) Verdict { return Hit })
+				if !miss {
+					paired = true
+				}
+			}
+			if paired {
+				c.OK(rule, key, s.node.Pos(), 1, "the store of %s just before always runs into this one", other)
+				continue
+			}
+			c.Fail(rule, key, s.node.Pos(), "%s stores Session.%s and can return without storing Session.%s: the session then names a database without holding a service for it (or the reverse), and the next statement passes the `CurDB == \"\"` test and calls a nil service", f.Name, s.field, other)
+		}
+	}
+	if n == 0 {
+		c.Undecided(rule, "subjects", "no store into Session.CurDB / Session.RelationService found in the engine")
+	}
+}
